@@ -253,17 +253,12 @@ def judgeExtra (hNew hOld : HCtx) (op res : Array String) (dump : Option St) : H
         let missing := exp.filter (fun x => !got.contains x)
         let extra := got.filter (fun x => !exp.contains x)
         s!"kind={if !missing.isEmpty then "missing" else if !extra.isEmpty then "extra" else "dup"} center={if (s.locClass center).1 == 3 then "outside" else "inside"} collinear={if s.nF == 1 then 1 else 0} point={if lo == hi then 1 else 0} lo={lo} hi={hi} got={got} expected={exp}"
-      let bits := if hOld.scalar == "f32" then 16 else 38
-      let d := s.extent [lo, hi] / 2 ^ bits
       if name == "rectv" then (hNew, chk (decide (s.RectVerticesOK lo hi got)) "C16" "rect-vertices-wrong" feat)
-      -- the rectangle metric only compares quotients of cross products of coordinate differences
-      -- with 0 and 1: on the small-integer / dyadic families every difference and product is exact
-      -- and the correctly rounded quotient is on the right side of 0 and 1, so the edge set is
-      -- judged exactly there (in particular rectangles degenerate to a segment or a point);
-      -- elsewhere up to the slack `d`
-      else if hOld.fam.startsWith "grid" || hOld.fam == "line" || hOld.fam == "offset" then
-        (hNew, chk (decide (s.RectEdgesOK lo hi got)) "C16" "rect-edges-wrong" feat)
-      else (hNew, chk (decide (s.RectEdgesTolOK lo hi d got)) "C16" "rect-edges-wrong" feat)
+      -- since fix F29 the rectangle metric decides with exact predicates only (bounding boxes and
+      -- `side_query` of the four corners), and vertices are compared coordinate-wise: the edge set is
+      -- judged exactly on every family (before: only on the small-integer families, elsewhere up to
+      -- a slack)
+      else (hNew, chk (decide (s.RectEdgesOK lo hi got)) "C16" "rect-edges-wrong" feat)
     | _, _, _ => (hNew, [⟨"INTERNAL", "protocol", s!"{name}: {res.toList}"⟩])
   | "circv" | "circe" =>
     match parsePt (op.getD 1 "") (op.getD 2 ""), parseCoord (op.getD 3 ""), natList res 1 with
